@@ -14,6 +14,8 @@ mkdir -p .scratch/sensitivity
 for d in $DIRS; do
   d="${d%/}"
   id=$(python3 -c "import json,sys; print(json.load(open('$d/meta.json'))['property'])")
+  skip=$(python3 -c "import json; print(json.load(open('$d/meta.json')).get('skip_reason','')[:90])")
+  if [ -n "$skip" ]; then echo "$d property=$id SKIPPED ($skip...)"; continue; fi
   if ! git -C /repo apply "$ROOT/$d/patch.diff" 2>/dev/null; then echo "$d property=$id APPLY-FAILED"; continue; fi
   log=".scratch/sensitivity/$(echo "$d" | tr '/' '_').$TIER.log"
   ./check "$id" "$TIER" >"$log" 2>&1; rc=$?
